@@ -287,6 +287,35 @@ def run_one(choices, params):
         info["total"] = dict((d, pipes[d].nwritten) for d in pipes)
         cha.close()
         chb.close()
+        if transport == "pipe" and not small:       # (with tiny pipe buffers a write blocks until somebody reads: one task cannot play both ends)
+            # second generation: new pipes (the kernel hands out the descriptor numbers the closed streams had) carry a new pair of
+            # streams.  Late calls on the closed channels must raise EOFError and must not reach the new streams.
+            fos = patch.MODS["os"]
+            r1, w1 = fos.pipe()
+            r2, w2 = fos.pipe()
+            ncha = Channel(PipeStream(fos.fdopen(r1, "rb"), fos.fdopen(w2, "wb")), False)
+            nchb = Channel(PipeStream(fos.fdopen(r2, "rb"), fos.fdopen(w1, "wb")), False)
+            sim.count("c05:descriptor-numbers-reused")
+            first = c.draw(2)
+            if first:
+                ncha.send(b"generation-2 a>b")
+                nchb.send(b"generation-2 b>a")
+            check_dead(cha, "closed A")
+            check_dead(chb, "closed B")
+            if not first:
+                ncha.send(b"generation-2 a>b")
+                nchb.send(b"generation-2 b>a")
+            for ch, who, want in ((nchb, "B", b"generation-2 a>b"), (ncha, "A", b"generation-2 b>a")):
+                if not ch.poll(1):
+                    raise core.Violation("packet-lost", "second-generation stream: %s's packet was taken by somebody else" % who)
+                got = ch.recv()
+                if got != want:
+                    raise core.Violation("packet-altered", "second-generation stream: %s received %r instead of %r (a closed stream of the "
+                                         "first generation wrote to the reused descriptor)" % (who, got[:40], want))
+                if ch.poll(0):
+                    raise core.Violation("packet-altered", "second-generation stream: %s has extra data after its only packet" % who)
+            ncha.close()
+            nchb.close()
         return True
 
     out, sim = H.simulate(choices, main, strategy=strat, netcfg=cfg, step_cap=300000)
